@@ -626,9 +626,13 @@ class Region:
                     if c.target is None:
                         self._leaf(cond, ("diverges", c.primary.split("::")[-1]), None, marks, trace)
                         break
-                    v = self.call(env, c, cond)
-                    self.assign(env, c.dest, v)
-                    nxt = [(c.target, cond)]
+                    if c.inl and not any(pat in c.names for pat in self.models):
+                        # spliced private helper: walk its copy; the join block writes dest
+                        nxt = [(c.inl["entry"], cond)]
+                    else:
+                        v = self.call(env, c, cond)
+                        self.assign(env, c.dest, v)
+                        nxt = [(c.inl["after"] if c.inl else c.target, cond)]
                 elif k == "switch":
                     v = self.deref(env, self.operand(env, t[1]))
                     nxt = list(self.switch(v, t[2], t[3], cond))
